@@ -24,11 +24,25 @@
 (* is merged into it with dict.update, callables narrow the rows on the way.  Variant Adopt     *)
 (* (`filters` IS the caller's dict when there is nothing to merge it into) shows what the law   *)
 (* forbids: the next update then writes into the caller's object.                               *)
+(*                                                                                             *)
+(* ROUND 4.  (1) The caller OWNS the pool: between two calls he may EDIT an object in place - a   *)
+(* list of admissible values (a cell condition <<"list", contents, id>>: id = the identity of the *)
+(* list OBJECT; the same id in two dicts is one list held by both), or a dict (set / delete a     *)
+(* condition).  A call may also hand over FRESH objects equal by value to what the pool held      *)
+(* BEFORE the latest edit (src = "old"), and it may be made on a SECOND table (on = "u").  The law *)
+(* does not change: the outcome is a function of the table the call is made on and of the contents*)
+(* its filters have AT THE MOMENT OF THE CALL - a call has no memory and owns nothing of the       *)
+(* caller.  (2) The NAMES of the columns are data of the case: a naming maps the columns a, b, c, d*)
+(* of the law onto the names the real table carries (data, columns, key, self, function, ...);    *)
+(* the law under a naming is the renamed law (RenT, RenOut).  (3) A callable has a REALISATION (field      *)
+(* `real`: lambda, def, functools.partial, an object with __call__, a bound method, a function     *)
+(* decorated by pyg_base - a dict subclass instance); the law does not look at it.                 *)
 EXTENDS Table, SequencesExt, FiniteSetsExt
 
 \* (fields in the order TLC keeps them once normalised, see MkCall in MC_IncSession.tla)
-FDict(items) == [kind |-> "dict", items |-> items, name |-> ""]
-FPred(n)     == [kind |-> "pred", items |-> <<>>, name |-> n]
+FDict(items)  == [kind |-> "dict", items |-> items, name |-> "", real |-> "dict"]
+FPredR(n, r)  == [kind |-> "pred", items |-> <<>>, name |-> n, real |-> r]
+FPred(n)      == FPredR(n, "lambda")
 IsDict(f) == f.kind = "dict"
 IsPred(f) == f.kind = "pred"
 
@@ -156,6 +170,56 @@ MechCall(t, p, c, adopt) ==
                                      IF Len(rest) > 1 THEN RaisesOut("ValueError")
                                      ELSE IF Len(rest) = 0 THEN [kind |-> "none"] ELSE [kind |-> "row", row |-> rest[1]]
     IN  [out |-> out, pool |-> m.pool]
+
+\* ---------------------------------------------------------------------------------------------
+\* ROUND 4 (1): the caller's own actions between calls, and the second table
+\* ---------------------------------------------------------------------------------------------
+IsListC(cc) == cc[1] = "list"
+ListIds(items) == {items[k][2][3] : k \in {j \in 1..Len(items) : IsListC(items[j][2])}}
+PoolListIds(p) == UNION {ListIds(p[s].items) : s \in 1..Len(p)}
+ListNow(p, id) == LET s == CHOOSE s \in 1..Len(p) : id \in ListIds(p[s].items)
+                      k == CHOOSE k \in 1..Len(p[s].items) : IsListC(p[s].items[k][2]) /\ p[s].items[k][2][3] = id
+                  IN  p[s].items[k][2][2]
+\* an edit e = [op |-> "edit", what |-> "list" | "set" | "del", id, slot, col, new]
+\*   "list": the list object `id` gets the contents `new`, in place (L.append / L.pop / L.clear / L[:] = new): every dict holding it sees it
+\*   "set" : pool[slot][col] = new (a cell condition; an existing key keeps its place, a new one goes last)
+\*   "del" : del pool[slot][col]
+EditListIn(p, id, new) ==
+    [s \in 1..Len(p) |-> [p[s] EXCEPT !.items = [k \in 1..Len(@) |->
+        IF IsListC(@[k][2]) /\ @[k][2][3] = id THEN <<@[k][1], <<"list", new, id>>>> ELSE @[k]]]]
+ApplyEdit(p, e) ==
+    CASE e.what = "list" -> EditListIn(p, e.id, e.new)
+      [] e.what = "set"  -> [p EXCEPT ![e.slot].items = Upd1(@, <<e.col, e.new>>)]
+      [] e.what = "del"  -> [p EXCEPT ![e.slot].items = SelectSeq(@, LAMBDA it : it[1] # e.col)]
+\* the pool slots an edit shows through
+Touched(p, e) == IF e.what = "list" THEN {s \in 1..Len(p) : e.id \in ListIds(p[s].items)} ELSE {e.slot}
+UsedSlots(c) == (Range(c.pos) \cup {c.kw, c.x}) \ {0}
+\* the second table of a session: the same columns, other rows (the first table's rows but the first, backwards)
+Other(t) == [cols |-> t.cols, rows |-> IF t.rows = <<>> THEN <<>> ELSE Reverse(Tail(t.rows))]
+
+\* ---------------------------------------------------------------------------------------------
+\* ROUND 4 (2): namings.  nmf = a function from the law's columns to the names of the real table
+\* ---------------------------------------------------------------------------------------------
+RenRow(r, nmf)  == [n \in {nmf[x] : x \in DOMAIN r} |-> r[CHOOSE x \in DOMAIN r : nmf[x] = n]]
+RenCols(cs, nmf) == [k \in 1..Len(cs) |-> nmf[cs[k]]]
+RenRows(rs, nmf) == [i \in 1..Len(rs) |-> RenRow(rs[i], nmf)]
+RenT(t, nmf)    == [cols |-> RenCols(t.cols, nmf), rows |-> RenRows(t.rows, nmf)]
+RenItems(its, nmf) == [k \in 1..Len(its) |-> <<nmf[its[k][1]], its[k][2]>>]
+RenPool(p, nmf) == [s \in 1..Len(p) |-> [p[s] EXCEPT !.items = RenItems(@, nmf)]]
+RenOut(o, nmf)  == CASE o.kind = "table" -> [kind |-> "table", cols |-> RenCols(o.cols, nmf), rows |-> RenRows(o.rows, nmf)]
+                     [] o.kind = "row"   -> [kind |-> "row", row |-> RenRow(o.row, nmf)]
+                     [] OTHER -> o
+\* Named restriction NameExpressible (the quantifier: "conditions expressible through inc/exc keyword filters, dict
+\* filters and single callables").  Python itself refuses t.inc(self = 1) (and one_or_none(exc = 1 / find = 1) mean something
+\* else), so a condition on such a column is expressible through a dict filter only.  one_or_none hands its exc = dict on
+\* as keywords (res.exc(**exc)), and every callable is called with the whole row as keywords through pyg's wrapper object
+\* (wrapper.__call__(self, ...)): on a table with a column named `self` no callable can be used, and a callable needs
+\* identifiers as column names anyway (named deviation SelfColumn, reported).
+ReservedKw(op) == IF op = "one" THEN {"self", "exc", "find"} ELSE {"self"}
+Expressible(nm, t, p, c) ==
+    /\ c.kw # 0 => \A it \in Range(p[c.kw].items) : nm.f[it[1]] \notin ReservedKw(c.op)
+    /\ c.x # 0  => \A it \in Range(p[c.x].items) : nm.f[it[1]] # "self"
+    /\ PredPos(p, c) # {} => (nm.ident /\ \A x \in ColSet(t) : nm.f[x] # "self")
 
 \* the caller's view of a dict: its conditions in the table's column order (a dict has no order that matters)
 CanonItems(items, cols) == FoldSeq(LAMBDA c, acc : acc \o SelectSeq(items, LAMBDA it : it[1] = c), <<>>, cols)
